@@ -16,6 +16,7 @@ use crate::verif_oracle::*;
 
 pub mod cases;
 pub mod cases_cleanup;
+pub mod cases_recursive;
 pub mod cleanup;
 pub mod mapped;
 
@@ -87,6 +88,34 @@ unsafe impl PageTableFrameMapping for PoolMap {
             },
         }
     }
+}
+
+/// S-ptr: `VirtAddr::as_ptr` (and through it `as_mut_ptr`) for the RecursivePageTable harnesses = software MMU.
+/// The recursive mapper reaches every table through a virtual address; the stub performs the 4-level
+/// hardware walk of the pool for that address (SDM vol.3A 4.5; PS is honoured at levels 3 and 2 -- a huge
+/// entry there means the access lands in a data frame -- and is the PAT bit at level 1) and returns the pool
+/// table the address resolves to.  Anything else (page fault, data frame, frame outside the pool) is a
+/// stray access.
+pub fn stub_as_ptr<T>(a: VirtAddr) -> *const T {
+    mmu_resolve(a.as_u64()) as *const T
+}
+pub fn mmu_resolve(a: u64) -> *mut PageTable {
+    let mut k = 0usize;
+    let mut level = 4u32;
+    while level >= 1 {
+        let e = raw(k, idx(a, level));
+        let bad = e & P == 0 || ((level == 3 || level == 2) && e & PS != 0);
+        let next = if bad { None } else { pool_index(e & ADDR) };
+        match next {
+            Some(n) => k = n,
+            None => unsafe {
+                STRAY_ACCESS = true;
+                return core::ptr::addr_of_mut!(SINK);
+            },
+        }
+        level -= 1;
+    }
+    unsafe { core::ptr::addr_of_mut!(POOL[k]) }
 }
 
 // ------------------------------------------------------------------------------------------------
